@@ -320,12 +320,42 @@ def fam_quad_generic(R):
             sd = z3.Solver(); sd.add(*(hyps + [speed2 > 0, z3.Not(sol_claim)])); open('/tmp/c06_claim.smt2', 'w').write(sd.to_smt2())
         if os.environ.get('C06_DUMP'):
             open('/tmp/c06_claim.txt', 'w').write('HYPS\n' + '\n'.join(str(h) for h in hyps) + '\nDS\n' + str(ds) + '\nQ1 ' + str(q1) + '\nS\n' + str(sa))
-        r, dt, m = solve(hyps + [speed2 > 0, z3.Not(sol_claim)], 120000)
-        R.solver_time += dt
+        r = 'unknown'
+        if q1 is not None:
+            # first through an ideal-membership certificate over the atom relations (vf/cert.py), then as a plain query
+            from .. import cert
+
+            # every divisor of ds is a divisor of s (the run forked on it: NaN route otherwise), a sqrt atom (> 0 above) or the
+            # argument of a ln (the run checked > 0), or a product of those: non-zero on this path -- the bound 'denominators non-zero'
+            divs = []
+
+            def walk_div(t_, seen=set()):
+                if t_.get_id() in seen:
+                    return
+                seen.add(t_.get_id())
+                if z3.is_app(t_) and t_.decl().kind() == z3.Z3_OP_DIV and not z3.is_rational_value(t_.arg(1)):
+                    divs.append(t_.arg(1) != 0)
+                for c_ in t_.children():
+                    walk_div(c_, seen)
+            walk_div(ds)
+
+            class HypCtx:
+                pc = hyps + [speed2 > 0] + divs
+            r, dt, info = cert.prove_eq_mod(HypCtx, ds, q1, (), 60000)
+            R.solver_time += dt
+            if os.environ.get('C06_DUMP'):
+                print('certificate:', r, info)
+        if r != 'unsat':
+            r, dt, m = solve(hyps + [speed2 > 0, z3.Not(sol_claim)], 120000)
+            R.solver_time += dt
         if r == 'unsat':
             R.discharged += 1
         elif r == 'unknown':
             R.inconclusive.append('quad.ds/dt1=speed (abstracted c2,c1,c0)')
+            # undecided: probe the real closed form on fixed generic control points (confirms a wrong formula, proves nothing)
+            for pts_ in ([0j, 3 + 4j, 7 - 2j], [1 + 1j, -2 + 5j, 4 + 0.5j], [0j, 1 + 0j, 1 + 1j]):
+                if R.probe('quad.ds/dt1=speed', {'cls': 'QuadraticBezier.length closed form', 'inputs': {'ps': str(pts_)}, 'script': REPLAY_QLEN % (pts_, 0.15, 0.8)}):
+                    break
         else:
             R.obligations -= 1
             R.direct_cex('quad.ds/dt1=speed', cex(m) if False else {'cls': 'QuadraticBezier.length closed form', 'inputs': str(m)[:300],
